@@ -30,7 +30,9 @@ def variants(rng, src: str):
     out.append(("cookie", b"# -*- coding: utf-8 -*-\n" + src.encode()))
     out.append(("latin1_cookie", b"# -*- coding: latin-1 -*-\nname = '\xe9t\xe9'\n" + src.encode("latin-1")))
     out.append(("blank_and_ws_lines", ("\n   \n\t\n# c\n   # indented comment\n" + src + "\n\n  \n").encode()))
-    out.append(("formfeed_vtab", ("\x0c\n" + src + "x = 1 \x0b\n").encode()))
+    # form-feed-only and form-feed-before-comment lines are blank / comment-only for Python (seeded change C12-m19 stripped only blanks and tabs);
+    # a vertical tab is legal only inside a comment or string (the earlier "x = 1 \x0b" made this variant a syntax error, i.e. always a skipped file)
+    out.append(("formfeed_vtab", ("\x0c\n" + src + "\x0c# page break comment\n  \x0c  \nff_x = 1\n\x0c\x0c\n# tail \x0b\n \x0cff_y = 2\n").encode()))
     out.append(("lone_cr", src.replace("\n", "\r", 1).encode()))
     # characters str.splitlines() breaks at but Python source does not, INSIDE a line that goes on afterwards (seeded change C12-m6 counted the tail as a line)
     out.append(("separators_inside_lines", ("s = 'a\u2028b\u2029c'\n# page one\x0cpage two\n# see\x0bbelow\nx = 1 \x0c + 2\nd = 'x\x1cy\x1dz\x1e'\n" + src).encode()))
